@@ -1108,16 +1108,21 @@ fn run() {
 }
 
 /// one random case; `dead_allowed`: may contain a request for the exchange without execution link
-fn gen_case(out: &mut Out, rng: &mut Rng, id: &str, thorough: bool) {
+/// `dom` = the input-domain family (cases `d<n>`, own PRNG stream): zero / exact-fit / huge balances (quote 0 / 100 / 2e12,
+/// base 0 / 1), latencies 1 / 500 ms, prices 0.5 / 99.99 / 1e12 and quantities 3 / 1e-8, up to three open and two cancel
+/// requests in one call
+fn gen_case(out: &mut Out, rng: &mut Rng, id: &str, thorough: bool, dom: bool) {
     out.case(id);
     let k = rng.range(1, 3) as usize;
     let x2 = rng.chance(35);
-    let quote = *rng.pick(&["300", "1000", "100000"]);
-    let base = *rng.pick(&["2", "10"]);
+    let quote = if dom { *rng.pick(&["0", "100", "1000", "2000000000000"]) } else { *rng.pick(&["300", "1000", "100000"]) };
+    let base = if dom { *rng.pick(&["0", "1", "2"]) } else { *rng.pick(&["2", "10"]) };
     let feed = *rng.pick(&["iter", "stream", "stream", "dflt"]);
     let audit = *rng.pick(&["on", "on", "off", "dflt"]);
     let trading = *rng.pick(&["on", "on", "off", "dflt"]);
-    let latency = *rng.pick(&[0u64, 0, 50, 50, 200]);
+    let latency = if dom { *rng.pick(&[0u64, 1, 50, 500]) } else { *rng.pick(&[0u64, 0, 50, 50, 200]) };
+    let open_prices: &[&str] = if dom { &["50", "100", "100", "0.5", "99.99", "1000000000000"] } else { &["50", "100"] };
+    let open_qtys: &[&str] = if dom { &["1", "1", "2", "0.5", "3", "0.00000001"] } else { &["1", "1", "2", "0.5", "20"] };
     out.line(format!("sys {feed} {audit} {trading} {k} {} {quote} {base} {latency}", x2 as u8));
     let cid_pool = [1u64, 2, 3, 4, 7000, 7001, 9000, 9001];
     let gen_filter = |rng: &mut Rng| -> String {
@@ -1132,8 +1137,8 @@ fn gen_case(out: &mut Out, rng: &mut Rng, id: &str, thorough: bool) {
         let i = rng.below(k as u64);
         let cid = *rng.pick(&cid_pool[..4]);
         let side = if rng.chance(60) { "B" } else { "S" };
-        let price = *rng.pick(&["50", "100"]);
-        let qty = *rng.pick(&["1", "1", "2", "0.5", "20"]);
+        let price = *rng.pick(open_prices);
+        let qty = *rng.pick(open_qtys);
         format!("o:0:{i}:{cid}:{side}:{price}:{qty}")
     };
     let gen_cancel = |rng: &mut Rng| -> String {
@@ -1170,9 +1175,13 @@ fn gen_case(out: &mut Out, rng: &mut Rng, id: &str, thorough: bool) {
                     let mut line = format!("call open {}", gen_open(rng));
                     if rng.chance(35) {
                         line.push_str(&format!(" {}", gen_open(rng)));
+                        if dom && rng.chance(40) {
+                            line.push_str(&format!(" {}", gen_open(rng)));
+                        }
                     }
                     out.line(line);
                 }
+                6 if dom && rng.chance(40) => out.line(format!("call cancel {} {}", gen_cancel(rng), gen_cancel(rng))),
                 6 => out.line(format!("call cancel {}", gen_cancel(rng))),
                 7 => out.line(format!("call close {}", gen_filter(rng))),
                 8 => out.line(format!("call cancel_orders {}", gen_filter(rng))),
@@ -1276,7 +1285,12 @@ fn generate(seed: u64, n_cases: usize, tier: &str) {
         }
     }
     for c in 0..n_cases {
-        gen_case(&mut out, &mut rng, &format!("r{}", c + 1), thorough);
+        gen_case(&mut out, &mut rng, &format!("r{}", c + 1), thorough, false);
+    }
+    // the input-domain family (own PRNG stream, so the cases above stay as they are): one case per 8 random ones
+    let mut drng = Rng::new(seed ^ 0x444f_4d53);
+    for c in 0..n_cases / 8 {
+        gen_case(&mut out, &mut drng, &format!("d{}", c + 1), thorough, true);
     }
     out.flush();
 }
